@@ -32,6 +32,10 @@ struct Arg
     std::unique_ptr<Decoder> dec;
     std::vector<std::shared_ptr<Packet>> held;
     size_t split = 0;               // frames[0..split) were decoded before the concurrent phase
+    // copy family (kinds enccopy / deccopy / statuscopy): the thread's object is a COPY of a prototype that every other thread of
+    // the same kind also holds a copy of (one clone per stream); copied before every execution on the main thread
+    std::unique_ptr<Encoder> enc;
+    std::unique_ptr<Status> st;
 };
 
 W& quietW()
@@ -352,11 +356,81 @@ void bodyConsume(int, void* a)
     A.digest = h;
 }
 
+// ---- copy family -------------------------------------------------------------------------------------------------------
+// Objects obtained by copying one configured prototype are distinct objects: each thread works on its own copy.
+void bodyEncCopy(int, void* a)
+{
+    Arg& A = *static_cast<Arg*>(a);
+    uint64_t h = 8;
+    Encoder& e = *A.enc;
+    e.setStreamId((uint8_t) (A.u & 0xFF));
+    API_POINT();
+    std::vector<Packet> batch = {genericPacket(1, 5, A.u, 1), genericPacket(3, 7, A.u, 3), genericPacket(1, 100, A.u, 2)};
+    for (int r = 0; r < 2; ++r)
+    {
+        auto frames = e.encode(batch.begin(), batch.end(), DataContext{0, 64});
+        API_POINT();
+        for (auto& f : frames)
+            h = mc::fnv(f.data(), f.size(), h);
+    }
+    h = mc::mix(h, e.getSequenceCounter());
+    A.digest = h;
+}
+
+void bodyDecCopy(int, void* a)
+{
+    Arg& A = *static_cast<Arg*>(a);
+    uint64_t h = 9;
+    for (size_t i = A.split; i < A.frames.size(); ++i)
+    {
+        auto pk = A.dec->decode(A.frames[i].data(), A.frames[i].size());
+        API_POINT();
+        h = mc::mix(h, pk.size());
+        for (auto& p : pk)
+            h = mc::mix(h, digestPacket(*p));
+    }
+    A.digest = h;
+}
+
+void bodyStatusCopy(int, void* a)
+{
+    Arg& A = *static_cast<Arg*>(a);
+    uint64_t h = 10;
+    Status& st = *A.st;
+    for (int r = 0; r < 3; ++r)
+    {
+        InterfacePayload ip;
+        ip.setInterfaceId(700 + (uint32_t) (r % 2));
+        ip.setMsgTotalRx(A.u + (uint32_t) r);
+        ip.setData(nullptr, 0, nullptr, 0);
+        Packet q;
+        q.setPayload(ip);
+        q.setDeviceId(77);
+        st.update(q);
+        API_POINT();
+    }
+    CaptureModulePayload cm;
+    cm.setUptime(A.u);
+    cm.setData("copy" + std::to_string(A.u), "sn", "hw", "sw", {});
+    Packet p;
+    p.setPayload(cm);
+    p.setDeviceId(77);
+    st.update(p);
+    API_POINT();
+    for (size_t i = 0; i < st.getDeviceStatusCount(); ++i)
+    {
+        h = mc::mix(h, digestPacket(st.getDeviceStatus(i).getPacket()));
+        for (size_t j = 0; j < st.getDeviceStatus(i).getInterfaceStatusCount(); ++j)
+            h = mc::mix(h, digestPacket(st.getDeviceStatus(i).getInterfaceStatus(j).getPacket()));
+    }
+    A.digest = h;
+}
+
 using BodyFn = void (*)(int, void*);
 static void soloDigestsInChild(std::vector<Arg>& solo);
-constexpr int NKIND = 7;
-const char* kBodyName[NKIND] = {"enc", "dec", "tecmp", "status", "build", "deccont", "consume"};
-BodyFn kBody[NKIND] = {bodyEnc, bodyDec, bodyTecmp, bodyStatus, bodyBuild, bodyDecCont, bodyConsume};
+constexpr int NKIND = 10;
+const char* kBodyName[NKIND] = {"enc", "dec", "tecmp", "status", "build", "deccont", "consume", "enccopy", "deccopy", "statuscopy"};
+BodyFn kBody[NKIND] = {bodyEnc, bodyDec, bodyTecmp, bodyStatus, bodyBuild, bodyDecCont, bodyConsume, bodyEncCopy, bodyDecCopy, bodyStatusCopy};
 
 void prep(Arg& A)
 {
@@ -365,7 +439,7 @@ void prep(Arg& A)
         prepDec(A);
     if (A.kind == 2)
         prepTecmp(A);
-    if (A.kind == 5 || A.kind == 6)
+    if (A.kind == 5 || A.kind == 6 || A.kind == 8)
         prepHand(A);
 }
 
@@ -393,6 +467,62 @@ void reprep(std::vector<Arg>& args)
     for (auto& a : args)
         if (a.kind == 5 && !(a.dec && &a == producer && taken))
             handOver(a, a);
+    // copy family: one prototype per kind (configured and used once), every thread of that kind gets a copy of it
+    bool needEnc = false, needDec = false, needSt = false;
+    for (auto& a : args)
+    {
+        needEnc = needEnc || a.kind == 7;
+        needDec = needDec || a.kind == 8;
+        needSt = needSt || a.kind == 9;
+    }
+    if (needEnc)
+    {
+        Encoder proto;
+        proto.setDeviceId(0x0707);
+        Packet warm = genericPacket(1, 9, 5, 1);
+        proto.encode(warm, DataContext{0, 64});
+        for (auto& a : args)
+            if (a.kind == 7)
+                a.enc = std::make_unique<Encoder>(proto);
+    }
+    if (needDec)
+    {
+        Decoder proto;
+        const Arg* first = nullptr;
+        for (auto& a : args)
+            if (a.kind == 8 && !first)
+                first = &a;
+        // the prototype has decoded the first thread's frames up to (and including) an open first segment
+        for (size_t i = 0; i < first->split; ++i)
+            proto.decode(first->frames[i].data(), first->frames[i].size());
+        for (auto& a : args)
+            if (a.kind == 8)
+            {
+                a.dec = std::make_unique<Decoder>(proto);
+                a.frames = first->frames;   // every copy continues the SAME stream (same endpoint, same open message)
+                a.split = first->split;
+            }
+    }
+    if (needSt)
+    {
+        Status proto;
+        CaptureModulePayload cm;
+        cm.setData("proto", "sn", "hw", "sw", {1});
+        Packet p;
+        p.setPayload(cm);
+        p.setDeviceId(77);
+        proto.update(p);
+        InterfacePayload ip;
+        ip.setInterfaceId(700);
+        ip.setData(nullptr, 0, nullptr, 0);
+        Packet q;
+        q.setPayload(ip);
+        q.setDeviceId(77);
+        proto.update(q);
+        for (auto& a : args)
+            if (a.kind == 9)
+                a.st = std::make_unique<Status>(proto);
+    }
 }
 
 int kindOf(const std::string& n)
@@ -477,12 +607,15 @@ int main(int argc, char** argv)
             t.join();
         runs += set.size() * (uint64_t) iters;
     }
-    // the hand-over pair: packets returned by a decoder are consumed and destroyed by another thread while the decoder goes on
+    // sets whose bodies use up prepared state (rebuilt before every iteration, threads started per iteration): the hand-over pair
+    // and the copy family (each thread works on its own copy of one prototype)
+    for (auto& set : std::vector<std::vector<int>>{{5, 6}, {7, 7, 7}, {8, 8}, {9, 9, 9}})
     {
-        std::vector<Arg> solo(2), args(2);
-        for (int i = 0; i < 2; ++i)
+        const size_t m = set.size();
+        std::vector<Arg> solo(m), args(m);
+        for (size_t i = 0; i < m; ++i)
         {
-            solo[i].kind = args[i].kind = 5 + i;
+            solo[i].kind = args[i].kind = set[i];
             solo[i].u = args[i].u = (uint32_t) (17 + 40 * i);
             prep(solo[i]);
             prep(args[i]);
@@ -491,16 +624,17 @@ int main(int argc, char** argv)
         for (int it = 0; it < iters; ++it)
         {
             reprep(args);
-            std::thread t0([&] { bodyDecCont(0, &args[0]); });
-            std::thread t1([&] { bodyConsume(1, &args[1]); });
-            t0.join();
-            t1.join();
-            for (int i = 0; i < 2; ++i)
+            std::vector<std::thread> th;
+            for (size_t i = 0; i < m; ++i)
+                th.emplace_back([&, i] { kBody[set[i]]((int) i, &args[i]); });
+            for (auto& t : th)
+                t.join();
+            for (size_t i = 0; i < m; ++i)
                 if (args[i].digest != solo[i].digest)
                     ++bad;
-            runs += 2;
+            runs += m;
         }
-        sets.push_back({5, 6});
+        sets.push_back(set);
     }
     printf("FREERUN sets=%zu body_runs=%llu digest_mismatches=%d\n", sets.size(), (unsigned long long) runs, bad);
     return bad ? 1 : 0;
